@@ -7,6 +7,7 @@ logic with a tolerance, so that a counterexample is only reported when it is *de
 violated by the float run.
 """
 import math
+import numpy as np
 from fractions import Fraction
 import z3
 from . import core
@@ -36,7 +37,13 @@ class Z3Logic:
         return core.isnan(x)
 
     def is_undefined(self, x):
-        return isinstance(x, core.Undefined)
+        if isinstance(x, core.Undefined):
+            return True
+        # a concrete float nan/inf produced by the real code (e.g. np.mean of an empty buffer) is undefined too
+        try:
+            return isinstance(x, (float, np.floating)) and (x != x or x in (math.inf, -math.inf))
+        except Exception:
+            return False
 
     def floor(self, x):
         x = self.num(x)
